@@ -5,7 +5,8 @@
 (* so the data are unit impulses plus a few dense patterns, while index    *)
 (* ranges - where the arithmetic can go wrong - are enumerated densely.    *)
 EXTENDS Conv
-CONSTANTS Deep      \* FALSE: quick bounds, TRUE: thorough bounds
+CONSTANTS Deep,     \* FALSE: quick bounds, TRUE: thorough bounds
+          Which     \* the instance families to check (subset of {1, 2, 3, 4})
 VARIABLES inst, done
 
 Seqs(S, lens) == UNION { [1..m -> S] : m \in lens }
@@ -45,7 +46,8 @@ I3L(L) ==
       on \in (IF one THEN {<<1, 1, 1>>, <<1, 1, 2>>, <<1, 1, 5>>} ELSE { n \in Sub(L, 4) : Size(n) \in {1, 4} }) }
 I3 == UNION { I3L(L) : L \in Pads }
 
-Instances == I1 \cup I1s \cup I2 \cup I3
+Instances == (IF 1 \in Which THEN I1 ELSE {}) \cup (IF 2 \in Which THEN I1s ELSE {})
+             \cup (IF 3 \in Which THEN I2 ELSE {}) \cup (IF 4 \in Which THEN I3 ELSE {})
 
 Init == inst \in Instances /\ done = FALSE
 Next == done = FALSE /\ done' = TRUE /\ inst' = inst
@@ -59,5 +61,5 @@ InvPad      == inst.kind = "pad" => ThNoWrap(inst.k, inst.a, inst.olo, inst.on)
 \* vacuity guards: the premises of the conditional theorems are met by some instance (checked as
 \* "never" properties that TLC must violate are not usable in a passing run; instead the counts are
 \* printed once per run by MC_Conv's ASSUME below)
-ASSUME PrintT(<<"instances", Cardinality(I1), Cardinality(I1s), Cardinality(I2), Cardinality(I3)>>)
+ASSUME PrintT(<<"instances", Cardinality(Instances)>>)
 =============================================================================
